@@ -77,13 +77,29 @@ def _infer_one(R, table, flavour, enc, inner):
     from cooler import util
     bins = alpha.table_bins(table, flavour)
     names = alpha.NAMES[flavour][:len(table)]
-    if enc == "object":
+    if enc == "edited-binnify":
+        # the table is made the way users make one: generate a fixed-width table with binnify(), then move its edges
+        sizes = models.ref_chromsizes(bins)
+        df = None
+        for w in sorted({b[2] - b[1] for b in bins}):
+            cand = util.binnify(pd.Series([sizes[nm] for nm in names], index=names), w)
+            if len(cand) == len(bins) and [str(x) for x in cand["chrom"]] == [b[0] for b in bins]:
+                df = cand
+                break
+        if df is None:
+            return
+        df["start"] = [b[1] for b in bins]
+        df["end"] = [b[2] for b in bins]
+        df = df.copy()
+        R.cls("enc:edited-binnify")
+    elif enc == "object":
         chrom = pd.Series([b[0] for b in bins], dtype=object)
     elif enc == "categorical":
         chrom = pd.Categorical([b[0] for b in bins], categories=names, ordered=True)
     else:
         chrom = np.array([names.index(b[0]) for b in bins], dtype=np.int32)
-    df = pd.DataFrame({"chrom": chrom, "start": [b[1] for b in bins], "end": [b[2] for b in bins]})
+    if enc != "edited-binnify":
+        df = pd.DataFrame({"chrom": chrom, "start": [b[1] for b in bins], "end": [b[2] for b in bins]})
     if enc == "int":
         bins = [(names.index(c), s, e) for c, s, e in bins]
     R.ev(1, 1 if len(bins) > 1 else 0)
@@ -222,7 +238,7 @@ def run(unit, R, tier, only=None):
         k = 0
         for t in tabs:
             for flavour in ("abc", "chr"):
-                for enc in ("object", "categorical", "int"):
+                for enc in ("object", "categorical", "int", "edited-binnify"):
                     k += 1
                     inner = {"table": [list(c) for c in t], "names": flavour, "enc": enc}
                     if only is not None and only != inner:
